@@ -103,7 +103,9 @@ def main():
     detected = [r for r in results if r["rc"] == 1 and r["violation_lines"]]
     meta.update({
         "needs_to_manifest": open(os.path.join(a.src, "notes.md")).read()
-        if os.path.exists(os.path.join(a.src, "notes.md")) else "",
+        if os.path.exists(os.path.join(a.src, "notes.md")) else
+        (json.load(open(old_meta)).get("needs_to_manifest", "")
+         if os.path.exists(old_meta) else ""),
         "confirmed": {
             "where": "scratch git worktree of /repo HEAD under /var/tmp "
                      "(removed afterwards)",
@@ -126,8 +128,10 @@ def main():
     if ok:
         d = os.path.join(VERIF, "seeded", a.name)
         os.makedirs(d, exist_ok=True)
-        shutil.copy(patch, os.path.join(d, "patch.diff"))
-        shutil.copy(demo, os.path.join(d, "demo.py"))
+        for src_f, name_f in ((patch, "patch.diff"), (demo, "demo.py")):
+            dst_f = os.path.join(d, name_f)
+            if os.path.abspath(src_f) != os.path.abspath(dst_f):
+                shutil.copy(src_f, dst_f)
         with open(os.path.join(d, "meta.json"), "w") as f:
             json.dump(meta, f, indent=1)
             f.write("\n")
